@@ -117,6 +117,7 @@ func Start(o Options) (*Server, error) {
 			return nil, err
 		}
 		logPath := filepath.Join(dir, "stderr.log")
+		_ = os.Rename(logPath, logPath+".prev") // the output of the previous run of this node, if any
 		lf, err := os.Create(logPath)
 		if err != nil {
 			return nil, err
